@@ -171,8 +171,17 @@ def _buffer_store_kind(m, s):
             blk = _block_of(s)
             i = blk.index(s)
             if i > 0 and isinstance(blk[i - 1], ast.Assign) and dotted(blk[i - 1].value) == 'self.buffer':
-                moved = dotted(blk[i - 1].targets[0])
-                rets = [r for r in walk_no_nested(m) if isinstance(r, ast.Return) and r.value is not None and moved in names_in(r.value)]
+                moved = {dotted(blk[i - 1].targets[0])}
+                grew = True
+                while grew:      # copies of the moved text (x = moved) carry it on
+                    grew = False
+                    for a_ in walk_no_nested(m):
+                        if isinstance(a_, ast.Assign) and isinstance(a_.value, ast.Name) and a_.value.id in moved:
+                            for t_ in a_.targets:
+                                if isinstance(t_, ast.Name) and t_.id not in moved:
+                                    moved.add(t_.id)
+                                    grew = True
+                rets = [r for r in walk_no_nested(m) if isinstance(r, ast.Return) and r.value is not None and moved & names_in(r.value)]
                 if rets:
                     return 'emptied after its content was moved to the returned row'
             return None
@@ -361,14 +370,62 @@ def rule_rd_eof(cx, rep, port):
         m = ms['get_row_simple']
         # inside `if row is None:` after _read_until_found: non-empty buffer is returned as a row
         moves = [n for n in walk_no_nested(m) if isinstance(n, ast.Assign) and dotted(n.value) == 'self.buffer' and isinstance(n.targets[0], ast.Name)]
-        empt = [n for n in walk_no_nested(m) if isinstance(n, ast.If) and 'self.buffer' in {dotted(x) for x in ast.walk(n.test)} and n.body and isinstance(n.body[0], ast.Return) and is_none(n.body[0].value)]
         rep.decide(len(moves) == 1, 'final line', moves[0] if moves else m, 'a non-empty remainder at end of input becomes the last row', 'the text left in the buffer at end of input is not returned as a final row')
-        if empt:
-            t = empt[0].test
-            pol_empty = (negated(t) is not None) or (isinstance(t, ast.Compare) and isinstance(t.ops[0], ast.Eq))
-            rep.decide(pol_empty, 'empty remainder', empt[0], 'an empty remainder ends the input', 'None is returned when the remainder is NON-empty (`{}`)'.format(node_text(t)))
+        # on the paths that test the remainder: empty -> None (end of input), non-empty -> the remainder is the row (path summaries)
+        from .. import pathsem
+
+        def buffer_empty(atom):
+            """True: atom true means the buffer is empty; False: means non-empty; None: other"""
+            e, neg = atom, False
+            while negated(e) is not None:
+                e, neg = negated(e), not neg
+            r = None
+            if isinstance(e, ast.Call) and dotted(e.func) == 'len' and e.args and dotted(e.args[0]) == 'self.buffer':
+                r = False
+            elif dotted(e) == 'self.buffer':
+                r = False
+            elif isinstance(e, ast.Compare) and len(e.ops) == 1:
+                l_, c_ = e.left, e.comparators[0]
+                if (isinstance(l_, ast.Call) and dotted(l_.func) == 'len' and l_.args and dotted(l_.args[0]) == 'self.buffer' and isinstance(c_, ast.Constant) and c_.value == 0) or (dotted(l_) == 'self.buffer' and isinstance(c_, ast.Constant) and c_.value == ''):
+                    r = isinstance(e.ops[0], ast.Eq) if isinstance(e.ops[0], (ast.Eq, ast.NotEq)) else (False if isinstance(e.ops[0], ast.Gt) else None)
+            if r is None:
+                return None
+            return (not r) if neg else r
+        ps = pathsem.paths(m)
+        if ps is None:
+            rep.undecided('empty remainder', m, 'get_row_simple is not summarisable as paths')
         else:
-            rep.violated('empty remainder', m, 'an empty remainder does not end the input')
+            n_e = n_ne = 0
+            bad = None
+            for q in ps:
+                if q.kind != 'return':
+                    continue
+                state = None
+                for t_, pol in q.conds:
+                    be = buffer_empty(t_)
+                    if be is not None:
+                        state = be if pol else not be
+                if state is None:
+                    continue
+                # a string that was just measured is not None: the branch `<buffer> is None` cannot be taken
+                if any(pol and isinstance(t_, ast.Compare) and len(t_.ops) == 1 and isinstance(t_.ops[0], (ast.Is, ast.Eq)) and dotted(t_.left) == 'self.buffer' and is_none(t_.comparators[0]) for t_, pol in q.conds):
+                    continue
+                if state:
+                    n_e += 1
+                    if not (q.value is None or is_none(q.value)):
+                        bad = (q.node, 'with an empty remainder at end of input `{}` is returned instead of None'.format(node_text(q.value, 60)))
+                else:
+                    n_ne += 1
+                    if q.value is None or is_none(q.value):
+                        bad = (q.node, 'None is returned when the remainder is NON-empty: the last line of a file without trailing line break is lost')
+            if bad:
+                rep.violated('empty remainder', bad[0], bad[1])
+            elif n_e and n_ne:
+                rep.holds('empty remainder', m, 'an empty remainder ends the input; a non-empty one is returned')
+            elif not n_e:
+                rep.violated('empty remainder', m, 'an empty remainder does not end the input')
+            else:
+                rep.undecided('empty remainder', m, 'paths testing the remainder not recognised')
         # _read_until_found sets exhausted only on an empty read
         r = ms['_read_until_found']
         ex = [n for n in walk_no_nested(r) if isinstance(n, ast.Assign) and dotted(n.targets[0]) == 'self.exhausted' and is_true(n.value)]
@@ -575,6 +632,8 @@ def _comment_escape_path(g, src, dst, line):
             return B
         if dotted(e) == 'self.comment_prefix':
             return not A
+        if isinstance(e, ast.Compare) and len(e.ops) == 1 and dotted(e.left) == line and is_none(e.comparators[0]):
+            return isinstance(e.ops[0], (ast.IsNot, ast.NotEq))     # the line under consideration exists
         return None
     seen_tests = [n for n in g.nodes if n.kind == 'test' and ('comment_prefix' in node_text(n.ast, 300))]
     if not seen_tests:
@@ -611,16 +670,27 @@ def rule_rd_rfc(cx, rep, port):
         fd = p.func('rbql_csv', 'CSVRecordIterator.get_row_rfc')
         parity = []
         for n in walk_no_nested(fd):
-            if isinstance(n, ast.If) and isinstance(n.test, ast.Compare) and isinstance(n.test.left, ast.BinOp) and isinstance(n.test.left.op, ast.Mod):
-                cnt = n.test.left.left
-                if isinstance(cnt, ast.Call) and isinstance(cnt.func, ast.Attribute) and cnt.func.attr == 'count' and cnt.args and isinstance(cnt.args[0], ast.Constant) and cnt.args[0].value == '"':
-                    parity.append((n, n.test.comparators[0].value, isinstance(n.test.ops[0], ast.Eq), dotted(cnt.func.value)))
+            if not isinstance(n, ast.If):
+                continue
+            # the parity comparison may be the whole test or one disjunct of it (`is a comment or count % 2 == 0`)
+            cands = [n.test] + (list(n.test.values) if isinstance(n.test, ast.BoolOp) and isinstance(n.test.op, ast.Or) else [])
+            for t_ in cands:
+                if isinstance(t_, ast.Compare) and isinstance(t_.left, ast.BinOp) and isinstance(t_.left.op, ast.Mod) and isinstance(t_.comparators[0], ast.Constant):
+                    cnt = t_.left.left
+                    if isinstance(cnt, ast.Call) and isinstance(cnt.func, ast.Attribute) and cnt.func.attr == 'count' and cnt.args and isinstance(cnt.args[0], ast.Constant) and cnt.args[0].value == '"':
+                        parity.append((n, t_.comparators[0].value, isinstance(t_.ops[0], ast.Eq), dotted(cnt.func.value)))
+                        break
         if len(parity) != 2:
             rep.violated('quote parity', fd, 'quoted_rfc record assembly does not test the parity of the quote count of the first and of each continuation line ({} tests found)'.format(len(parity)))
             return
         (n1, v1, eq1, s1), (n2, v2, eq2, s2) = parity
         g = cfgmod.CFG(fd)
-        reads = lambda n: cfgmod.node_contains(n, lambda x: isinstance(x, ast.Call) and (call_name(x) or '').endswith('get_row_simple'))  # noqa: E731
+        def _is_read(x):
+            # self.get_row_simple()  or the iterator form  iter(self.get_row_simple, None)
+            if isinstance(x, ast.Call) and (call_name(x) or '').endswith('get_row_simple'):
+                return True
+            return isinstance(x, ast.Call) and dotted(x.func) == 'iter' and len(x.args) == 2 and (dotted(x.args[0]) or '').endswith('get_row_simple')
+        reads = lambda n: (n.kind == 'for') or cfgmod.node_contains(n, _is_read)  # noqa: E731
         is_ret = lambda n: isinstance(n.ast, ast.Return) and n.ast.value is not None and not is_none(n.ast.value)  # noqa: E731
 
         def ends_record(if_node):
@@ -637,7 +707,15 @@ def rule_rd_rfc(cx, rep, port):
         joins = [c for c in walk_no_nested(fd) if isinstance(c, ast.Call) and isinstance(c.func, ast.Attribute) and c.func.attr == 'join' and isinstance(c.func.value, ast.Constant)]
         rep.decide(joins and all(j.func.value.value == '\n' for j in joins), 'line joining', joins[0] if joins else fd, 'physical lines are joined with LF', 'physical lines of a multi-line record are joined with {!r} instead of LF'.format(joins[0].func.value.value if joins else None))
         eofret = [n for n in walk_no_nested(fd) if isinstance(n, ast.If) and isinstance(n.test, ast.Compare) and is_none(n.test.comparators[0]) and dotted(n.test.left) == 'row']
-        rep.decide(bool(eofret) and ends_record(eofret[0]), 'unfinished record', eofret[0] if eofret else fd, 'an unfinished record at end of input is still returned', 'an unfinished multi-line record at end of input is dropped')
+        sentinel_loops = [n for n in walk_no_nested(fd) if isinstance(n, ast.For) and isinstance(n.iter, ast.Call) and dotted(n.iter.func) == 'iter' and len(n.iter.args) == 2 and is_none(n.iter.args[1]) and (dotted(n.iter.args[0]) or '').endswith('get_row_simple')]
+        if not eofret and len(sentinel_loops) == 1:
+            # `for row in iter(self.get_row_simple, None)`: the loop ends at end of input; what follows it must return the collected lines
+            ln = [n_ for n_ in g.nodes if n_.kind == 'for' and n_.ast is sentinel_loops[0]]
+            after = [s_ for s_, lab in ln[0].succ if lab in ('F', 'exhausted', 'done', '')] if ln else []
+            ok_eof = bool(ln) and g.exists_path(ln[0], is_ret, avoid=lambda n_: n_ is not ln[0] and cfgmod.node_contains(n_, _is_read), edge_ok=lambda a, b, lab: not (a is ln[0] and b in [x for x, l2 in ln[0].succ if any(x.ast is st_ for st_ in sentinel_loops[0].body)]))
+            rep.decide(ok_eof, 'unfinished record', sentinel_loops[0], 'an unfinished record at end of input is still returned', 'an unfinished multi-line record at end of input is dropped')
+        else:
+            rep.decide(bool(eofret) and ends_record(eofret[0]), 'unfinished record', eofret[0] if eofret else fd, 'an unfinished record at end of input is still returned', 'an unfinished multi-line record at end of input is dropped')
         apps = [c for c in walk_no_nested(fd) if isinstance(c, ast.Call) and isinstance(c.func, ast.Attribute) and c.func.attr == 'append']
         rep.decide(len(apps) == 1, 'line collection', apps[0] if apps else fd, 'every continuation line is collected', 'continuation lines are not all collected')
     else:
